@@ -1061,6 +1061,13 @@ class AnsiString:
                         ],
                         self._fmts[key].rem[:len(settings_add)]
                     )
+                    # My settings would stay active across the seam: none of them may start again further on
+                    # in the added string (the same object would then be active twice)
+                    and not any(
+                        __class__._find_setting_reference(s, later_add) >= 0
+                        for s in self._fmts[key].rem[:len(settings_add)]
+                        for later_key, later_add, _ in incoming_fmts if later_key != 0
+                    )
                 ):
                     # Special case - the string being added contains same formatting as end of my string.
                     # Because the settings work based on references instead of values, the settings not only
